@@ -108,7 +108,25 @@ def gen_multi_buffer(rng, mods):
         b.add('mixed = calc(1, 2) or 7')
         b.add('mixed', [('infer', 'mixe', None), ('goto', 'mixe', None)])
 
-    parts = [cond_call, ternary_inst, multi_def, multi_inherit, or_union, star_overlap, alt, flow, flow, refs, refs, arith, arith]
+    def case_tie():
+        # names that differ only in case tie on the documented completion sort key: their relative
+        # order must still not depend on which of them an earlier query looked at first
+        if tie_probes:
+            return
+        b.add('def worker(n):')
+        b.add('    return n')
+        b.add('')
+        b.add('Worker = 1.5')
+        b.add('WORKER = "s"')
+        b.add('WORKER', [('infer', 'WORK', None), ('goto', 'WORK', None)])
+        b.add('Worker', [('infer', 'Work', None)])
+        b.add('wor', [('complete', 'wor', None)])
+        b.add('worker(1)', [('get_signatures', 'worker(', None), ('get_references', 'work', {'scope': 'file'})])
+        tie_probes.append({'m': 'complete_search', 'q': 'wor'})
+        tie_probes.append({'m': 'search', 'q': 'worker'})
+
+    tie_probes = []
+    parts = [case_tie, case_tie, cond_call, ternary_inst, multi_def, multi_inherit, or_union, star_overlap, alt, flow, flow, refs, refs, arith, arith]
     rng.shuffle(parts)
     for p in parts[:rng.randint(3, 5)]:
         p()
@@ -123,6 +141,7 @@ def gen_multi_buffer(rng, mods):
     probes.append({'m': 'search', 'q': rng.choice(['Klass', 'func', 'pick', 'inst', a + '.func'])})
     probes.append({'m': 'complete_search', 'q': rng.choice(['Kla', 'fun', 'V', a + '.'])})
     probes.append({'m': 'get_context', 'l': max(1, nlines - 1), 'c': 0})
+    probes += tie_probes[:2]
     return b.text, probes
 
 
@@ -218,6 +237,10 @@ def gen_all_methods_buffer(rng, mods):
     b.add('')
     b.add('class Widget:')
     b.add('    size = 1')
+    # names that differ only in case tie on the completion sort key: their relative order must not
+    # depend on which of them an earlier query looked up first
+    b.add('    Size = 2.5')
+    b.add('    SIZE = "s"')
     b.add('')
     b.add('    def area(self, factor):')
     b.add('        return self.size * factor')
@@ -242,13 +265,20 @@ def gen_all_methods_buffer(rng, mods):
     b.add('w = Widget()')
     b.add('w.area(3)')
     pos.append((len(b.lines), 'w.area(3)', 'w.ar'))
+    b.add('Shown = w.SIZE')
+    pos.append((len(b.lines), 'Shown = w.SIZE', 'w.SI'))
+    b.add('SHOWN = Shown')
+    pos.append((len(b.lines), 'SHOWN = Shown', 'SHOWN = Show'))
     b.add('shown')
     pos.append((len(b.lines), 'shown', 'show'))
     rng.shuffle(pos)
     probes = []
     for ln, text, needle in pos[:rng.randint(2, 3)]:
         col = text.index(needle) + len(needle)
-        for m, kw in rng.sample(POS_METHODS, rng.randint(3, 5)):
+        methods = rng.sample(POS_METHODS, rng.randint(3, 5))
+        if ('complete', None) not in methods:
+            methods.append(('complete', None))
+        for m, kw in methods:
             p = {'m': m, 'l': ln, 'c': col}
             if kw:
                 p['kw'] = kw
@@ -321,22 +351,22 @@ def gen_case(seed, tier, i):
     init = [{'op': 'fs', 'kind': 'write', 'path': p, 'content': c, 'mt': MT0} for p, c in sorted(w.files.items())]
     family = rng.random()
     force_pathed = False
-    if family < 0.15:
+    if family < 0.12:
         text, probes = gen_many_calls_buffer(rng, list(w.mods))
-    elif family < 0.28:
+    elif family < 0.24:
         text, probes = gen_dynamic_params_buffer(rng, list(w.mods))
-    elif family < 0.36:
+    elif family < 0.31:
         extra_files = {}
         text, probes = gen_syspath_buffer(rng, extra_files)
         init += [{'op': 'fs', 'kind': 'write', 'path': p, 'content': c, 'mt': MT0} for p, c in sorted(extra_files.items())]
-    elif family < 0.42:
+    elif family < 0.38:
         extra_files = {}
         text, probes = gen_many_files_buffer(rng, extra_files)
         init += [{'op': 'fs', 'kind': 'write', 'path': p, 'content': c, 'mt': MT0} for p, c in sorted(extra_files.items())]
         force_pathed = True
-    elif family < 0.47:
+    elif family < 0.51:
         text, probes = gen_all_methods_buffer(rng, list(w.mods))
-    elif family < 0.57 and world.corpus_slice(driver.rng_for(seed, 'C16', 'corpus-available'))[0]:
+    elif family < 0.59 and world.corpus_slice(driver.rng_for(seed, 'C16', 'corpus-available'))[0]:
         from simkit.props import c08
         cname, text = world.corpus_slice(rng)
         probes = [p for p in c08.sample_probes(rng, text, 24) if p['m'] not in ('get_syntax_errors',)]
@@ -374,7 +404,7 @@ def gen_case(seed, tier, i):
     rng.shuffle(idxs)
     chosen = idxs[:min(8, len(idxs))]
     sched = []
-    if family < 0.47:
+    if family < 0.51:
         sched = list(chosen)        # every probe once (in shuffled order), then repetitions
     for _ in range(rng.randint(8, 16 if tier == 'quick' else 24)):
         sched.append(rng.choice(chosen))
@@ -586,7 +616,7 @@ class C16(base.Engine):
         return {'verdict': 'ok', 'stats': stats}
 
     def run(self, tier, seed, budget_s):
-        n = 60 if tier == 'quick' else 2000
+        n = 96 if tier == 'quick' else 2000
         cases = (gen_case(seed, tier, i) for i in range(n))
         return driver.run_cases('C16', cases, budget_s=budget_s)
 
